@@ -611,6 +611,49 @@ fn fixed_probes() -> Vec<Probe> {
     ]
 }
 
+/// A lambda created in a GENERIC function, using a variable of the type parameter (directly or through a
+/// nested lambda) and 1..8 int variables with distinct values that are combined positionally, so any
+/// permutation of the capture slots shows; the variables are reassigned after the lambda was created
+/// (it keeps the values of its creation).  Each function is instantiated at void (argument nil), at
+/// int and at a user struct.  Oracle: the digits in order, computed here.
+fn capture_order_probes() -> Vec<Probe> {
+    let leak = |s: String| -> &'static str { Box::leak(s.into_boxed_str()) };
+    let mut out = vec![];
+    for n in 1..=8usize {
+        for nested in [false, true] {
+            let params: Vec<String> = (1..=n).map(|i| format!("c{i}: int")).collect();
+            let vars: String = (1..=n).map(|i| format!("  var v{i} = c{i}\n")).collect();
+            let mut sum = String::new();
+            for i in 1..=n {
+                if i > 1 {
+                    sum.push_str(" + ");
+                }
+                sum.push_str(&format!("v{i} * {}", 10u64.pow((n - i) as u32)));
+            }
+            let body = if nested {
+                format!("  let f = () -> {{\n    let g = () -> {{\n      let t = u\n      {sum}\n    }}\n    g()\n  }}\n")
+            } else {
+                format!("  let f = () -> {{\n    let t = u\n    {sum}\n  }}\n")
+            };
+            let reassign: String = (1..=n).map(|i| format!("  v{i} = 0\n")).collect();
+            let args: String = (1..=n).map(|i| format!(", {i}")).collect();
+            let src = format!(
+                "type Sq = {{ w: int }}\nfn cap(u: T, {}) -> int {{\n{vars}{body}{reassign}  f()\n}}\nprintln(cap(nil{args}))\nprintln(cap(7{args}))\nprintln(cap(Sq(3){args}))\nprintln(cap(nil{args}))\n",
+                params.join(", ")
+            );
+            let digits: String = (1..=n).map(|i| i.to_string()).collect();
+            let want = format!("{digits}\n{digits}\n{digits}\n{digits}\n");
+            out.push(Probe {
+                name: leak(format!("capture-order-{n}-ints{}", if nested { "-nested" } else { "" })),
+                main: leak(src),
+                files: &[],
+                want: Want::Out(leak(want)),
+            });
+        }
+    }
+    out
+}
+
 fn main() {
     let mut ctx = Ctx::from_env("C22");
     let n_prog = if ctx.quick() { 160 } else { 3000 };
@@ -711,5 +754,6 @@ fn main() {
         }
     }
     run_probes(&mut ctx, &fixed_probes());
+    run_probes(&mut ctx, &capture_order_probes());
     ctx.finish();
 }
